@@ -533,16 +533,22 @@ func genHostileFont(t *rapid.T) (*t1ref.RawFont, string) {
 		line = append(append(line, t1ref.AppendNum(nil, 50, false)...), 21) // rmoveto
 		line = append(append(append(line, t1ref.AppendNum(nil, 30, false)...), t1ref.AppendNum(nil, 40, false)...), 5, 9, 14)
 		f.Glyphs = []t1ref.RawGlyph{{Name: ".notdef", Code: append(append([]byte{}, hsbw...), 14)}, {Name: names[0], Code: line}}
-		shape := rapid.IntRange(0, 3).Draw(t, "chainshape")
+		shape := rapid.IntRange(0, 6).Draw(t, "chainshape")
 		for k := 1; k < n; k++ {
 			base, accent := k-1, k-1
 			switch shape {
 			case 1:
 				accent = 0
 			case 2:
-				base, accent = k, k-1 // refers to itself
+				base, accent = k, k-1 // its own base
 			case 3:
 				base, accent = (k+1)%n, k-1 // refers forward (cycle at the end)
+			case 4:
+				base, accent = k-1, k // its own accent
+			case 5:
+				base, accent = k, k // both
+			case 6:
+				base, accent = 0, (k+1)%n
 			}
 			code := append([]byte{}, hsbw...)
 			for _, v := range []int{0, 10, 20, codeOf[names[base]], codeOf[names[accent]]} {
